@@ -79,6 +79,9 @@ def run(cx):
             ok = cx.has_guard(s, r'^!?.*(' + EXISTS + r').*$')
             cx.check('C10.G4', ok, w.path, 'climb', 'climb-requires-intermediate-name-absent(RFC4592-3.3.1)',
                      'the wildcard search moves from *.x to *.parent(x) guarded only by "*.x not found"; RFC 4592 synthesises only from the closest encloser, so an existing x must stop the climb', s.loc)
+        ne = prog.fn(I + 'name_exists::{closure@any#0}')
+        if ne:      # the existence test used by both guards: a key at or below the name, nothing else
+            cx.bool_exact('C10.G4', ne, 'or', [r'LowerName::zone_of\(\^arg2,RrKey::name\(arg2\)\)'], 'name-exists=some-key-at-or-below')
         syn = cx.returns(w, r'^Option::Some\(RecordSet::with_ttl\(into<Name>\(arg2\),')
         cx.guard('C10.G1', syn, {'wildcard-found': r'^ok\(InnerInMemory::inner_lookup\(arg1,phi\(LowerName::into_wildcard\('}, expect=1, fn=w)
     # ---------------------------------------------------------------- G2 negative decision
